@@ -63,11 +63,11 @@ theorem voigt_roundtrip_general (M : Mat6) :
     tensorToVoigt (voigtToTensor M) = fun i j => (M i j + M j i) / 2 :=
   tensorToVoigt_voigtToTensor M
 
-theorem voigt_roundtrip' (M : Mat6) (hM : IsSymm6 M) : tensorToVoigt (voigtToTensor M) = M :=
+theorem voigt_roundtrip_symm (M : Mat6) (hM : IsSymm6 M) : tensorToVoigt (voigtToTensor M) = M :=
   voigt_roundtrip M hM
 
 /-- and the converse, for every tensor with the elastic symmetries -/
-theorem tensor_roundtrip' (T : Ten4) (h : IsElastic T) : voigtToTensor (tensorToVoigt T) = T :=
+theorem tensor_roundtrip_elastic (T : Ten4) (h : IsElastic T) : voigtToTensor (tensorToVoigt T) = T :=
   tensor_roundtrip T h
 
 /-- the result of `elastic_tensor_to_voigt` is always a symmetric matrix -/
@@ -100,7 +100,7 @@ theorem vectorToMatrix_symm (v : Vec21) : IsSymm6 (vectorToMatrix v) :=
 
 /-- **isometry**: the squared norm of the 21-vector is the squared Frobenius norm of the 4th-order
 tensor (81 terms) -/
-theorem vector_isometry' (M : Mat6) (hM : IsSymm6 M) :
+theorem vector_norm_isometry (M : Mat6) (hM : IsSymm6 M) :
     dot21 (matrixToVector M) (matrixToVector M) = frob4 (voigtToTensor M) :=
   vector_isometry M hM
 
@@ -118,10 +118,10 @@ theorem rotate_law_dyad (u v w x : Fin 3 → ℝ) (Q : Mat3) :
   rotate_dyad u v w x Q
 
 /-- **group action** (for any two matrices) -/
-theorem rotate_comp' (T : Ten4) (Q₁ Q₂ : Mat3) :
+theorem rotate_group_action (T : Ten4) (Q₁ Q₂ : Mat3) :
     rotate (rotate T Q₁) Q₂ = rotate T (mmul Q₂ Q₁) := rotate_comp T Q₁ Q₂
 
-theorem rotate_one' (T : Ten4) : rotate T one3 = T := rotate_one T
+theorem rotate_identity (T : Ten4) : rotate T one3 = T := rotate_one T
 
 /-- rotating back with the transpose undoes an orthogonal rotation -/
 theorem rotate_inverse (T : Ten4) (Q : Mat3) (hQ : IsOrtho Q) : rotate (rotate T Q) (tr Q) = T :=
